@@ -36,7 +36,7 @@ def gen_case(r):
             script.append(["set", [i]])
     for _ in range(r.randint(1, 8)):
         p = r.choice(pids)
-        if r.random() < 0.04:
+        if r.random() < 0.04 and not ret[p[0]]:
             p = p + [r.randint(0, 3)]
         script.append([r.choice(["get", "get", "set"]), p])
     return {"env": env, "ret": ret, "script": script}
@@ -69,7 +69,7 @@ def coq_case(case):
 
 def run(ctx, model_ok):
     r = vlib.rng(ctx.seed, "C01/dfc")
-    n = 300 if ctx.quick else 4000
+    n = 200 if ctx.quick else 4000
     cases = [json.loads(f.read_text()) for f in sorted((ctx.dir / "corpus").glob("dfc_*.json"))]
     cases += [gen_case(r) for _ in range(n)]
     cov = {"scripts": len(cases), "disagreements": 0, "invariant_violations_on_real_container": 0}
